@@ -440,6 +440,11 @@ pub fn unimplemented(r: &mut Rng) -> String {
         4 => {
             // unimplemented ESC finals
             let f = *r.pick(&['1', '2', '3', '4', '5', '6', '9', ':', ';', '<', '=', '>', '?', '@', 'A', 'B', 'C', 'F', 'G', 'I', 'J', 'K', 'L', 'N', 'O', 'Q', 'R', 'S', 'T', 'U', 'V', 'W', 'Y', 'Z', '\\', 'a', 'b', 'd', 'g', 'n', 'o', '|', '}', '~']);
+            if r.chance(1, 4) {
+                // a final >= U+00A0 (handled like 'A': nothing), incl. characters whose LOW BYTE is an implemented final
+                let g = *r.pick(&['\u{a0}', 'é', '\u{144}', '\u{145}', '\u{148}', '\u{14d}', '\u{4e45}', '\u{4e4d}', '\u{137}', '\u{138}', '\u{163}', '\u{1f637}']);
+                return format!("\x1b{}", g);
+            }
             format!("\x1b{}", f)
         }
         5 => {
